@@ -24,3 +24,7 @@ pub open spec fn is_max_at(items: Seq<Value>, r: Value, k: int, n: int) -> bool 
 pub open spec fn is_min_at(items: Seq<Value>, r: Value, k: int, n: int) -> bool {
     0 <= k < items.len() && items[k] == r && (forall|j: int| 0 <= j < n ==> le(vlist(items)[k], #[trigger] vlist(items)[j]))
 }
+/// element k is comparable with no other element (a string among numbers, NaN, ...)
+pub open spec fn outlier(s: Seq<SVal>, k: int) -> bool {
+    0 <= k < s.len() && forall|j: int| 0 <= j < s.len() && j != k ==> #[trigger] vcmp(s[k], s[j]) is None && vcmp(s[j], s[k]) is None
+}
